@@ -256,6 +256,39 @@ T = {
     "C19e": ("C19", "compute_repairs replaces only the first kept set a new candidate supersedes instead of dropping all of them",
              "two kept consistent sets that are both strict subsets of a later candidate",
              "C19-R (admitting a candidate evicts every kept subset of it)", None),
+    # ---- batch f
+    "C01f": ("C01", "the group lowering applies a simple `?v op constant` FILTER at its lexical position when the plan so far `binds` ?v - with the variables of *all* UNION branches counted as bound",
+             "a UNION where only one branch binds ?v, the FILTER written after it, and a later pattern of the same group that binds ?v",
+             "C01-R (every member of a group is handled; selections for a group's own FILTERs are built only after all its other members were lowered)", None),
+    "C02f": ("C02", "the seen-set of the merged default graph is allocated once per scan call (and only for several FROM graphs) instead of once per incoming row",
+             "FROM <g1> FROM <g2>, a default-scoped pattern as the probe side of a bind / star join, two incoming rows reaching the same stored triple",
+             "C02-R13 = C01-R21 (one seen-set per incoming row)", "missed by C02-R1..R12 and C01-R1..R20; rule added to both properties; C01-R8 learnt the optional-set idiom `(len > 1).then(HashSet::new)`"),
+    "C03f": ("C03", "prepare_extensions registers the request's prologue into database.prefixes with entry().or_insert_with() and clones that map: a remembered label wins over the request's own PREFIX",
+             "two requests on one database that bind one prefix label to different IRIs, the later one an update",
+             "C03-R8 (an operation runs under its own prologue)", "missed by C03-R1..R7; C03-R8 added"),
+    "C04f": ("C04", "a per-graph quad counter behind len_graph; create_graph seeds it with 0 unconditionally",
+             "create_graph on a named graph that already holds quads (union() does that for every shared graph name)",
+             "C04-R9 (creating a graph that exists is a no-op)", "first reported by C04-R1's closed field census (`graph_sizes` unknown): right to fail closed, but a correct counter would have been reported too. "
+             "The census now accepts summary fields that every index writer updates, and C04-R9 reports the unconditional overwrite"),
+    "C05f": ("C05", "semi-naive find_premise_solutions applies evaluate_filters after every join step (filter push-down); evaluate_filters compares a bound left variable with the *name* of an unbound right variable",
+             "a variable-to-variable filter whose two variables are bound by different premises, at least two rounds",
+             "C05-R13 (filters see complete bindings)", "missed by C05-R1..R12; C05-R13 added"),
+    "C06f": ("C06", "the provenance round assigns `tag_changed = improved && !is_new` per merged derivation instead of setting it once",
+             "a further proof of a known fact arrives in a round that derives no new fact and the last merge of that round does not improve",
+             "C06-R3 (change flags are sticky)", "first reported by C06-R3 because the rule did not recognise `let improved = ..; if improved ..` as a test of the outcome (wrong reason: the benign spelling "
+             "was reported too). The rule now follows the copy, and a new obligation requires the round's change flags to be only ever set to true inside its loops"),
+    "C07f": ("C07", "apply_same_vtree / try_apply_same_vtree pair equal primes in one merge pass that relies on partitions sorted by prime; expand sorts the literal's synthetic partition, try_expand does not",
+             "budgeted path, a bare literal of the polarity allocated second against a decision node rooted at that variable",
+             "C07-R11 (twins order alike)", "missed by C07-R1..R10; C07-R11 added"),
+    "C08f": ("C08", "the lineage compiler conjoins exactly-one over the group choices the lineage mentions instead of over the whole group",
+             "a lineage that uses some but not all choices of an exclusive group and can be true with none of the mentioned ones selected",
+             "C08-R8 (exactly one of the whole group)", "missed by C08-R1..R7; C08-R8 added (T-TAINT now carries stores through borrowed views such as map.entry(k).or_insert_with(f) to the owner)"),
+    "C09f": ("C09", "Window bounds narrowed to u32 (`as u32` saturates); membership test moved into Window::contains",
+             "timestamps of 2^32 and beyond", "C09-R8 (bounds are as wide as the clock)",
+             "first reported by C09-R2 only because the membership comparisons had moved into a helper (wrong reason). C09-R2 now follows methods of Window; C09-R8 states the width assumption R3/R4 rely on"),
+    "C10f": ("C10", "R2ROperator::add returns whether the triple was newly inserted and the window processor records only those for eviction",
+             "a stream item equal to a fact derived in the previous firing (add makes it window content, nobody evicts it)",
+             "C10-R3 (everything loaded is recorded, on every path)", "missed: C10-R3 accepted a push that the add merely dominates; it now requires the next turn of the load loop to be reachable only through the push"),
     "C16b": ("C16", "sparql_aggregate returns the slice matched by the case-insensitive keyword helper instead of the canonical literal",
              "an aggregate keyword not written in upper case", "C16-R4 (keyword text never reaches the tree)",
              "missed by C16-R1..R3 (C01-R1 fired only through a floor, for the wrong reason); C16-R4 added, C01-R1 reads constant tables"),
